@@ -448,6 +448,14 @@ func main() {
 				id[i] = (i * 5) % 12
 			}
 			cons = append(cons, &construction{top: top, path: path, n: 12, order: id, history: "insert"})
+			if len(path) == 1 {
+				// large enough for sort.Slice to leave its insertion-sort regime
+				id20 := make([]int, 20)
+				for i := range id20 {
+					id20[i] = (i * 7) % 20
+				}
+				cons = append(cons, &construction{top: top, path: path, n: 20, order: id20, history: "insert"})
+			}
 		}
 	}
 	seenPath := map[string]bool{}
@@ -491,7 +499,7 @@ func main() {
 	st := &stats{nondetDistinct: map[string]int{}}
 	h.Rep.Bounds["constructions"] = len(cons)
 	h.Rep.Bounds["max_entries_all_orders"] = maxN
-	h.Rep.Bounds["large_map_entries"] = 12
+	h.Rep.Bounds["large_map_entries"] = "12 and 20"
 	h.Rep.Bounds["choice_vectors"] = "one global word r in [0, 8*2^B); one deviating iteration (every k, every r); thorough: two deviating iterations"
 	for i, c := range cons {
 		if i&15 == 0 && h.Expired() {
